@@ -49,7 +49,8 @@ type CheckCfg struct {
 	PanicOK     []string           `json:"panic_ok"`     // harnesses where an uncaught panic is not a violation
 	Assumptions []string           `json:"assumptions"`  // free text, copied into evidence
 	Outside     []string           `json:"outside"`      // free text: outside the claim
-	Overlays    map[string]string  `json:"src_overlays"` // repo-relative file -> sed-like "old=>new" one-line source overlay
+	Overlays    map[string]string  `json:"src_overlays"`
+	ValidateWitnesses int `json:"validate_witnesses"` // repo-relative file -> sed-like "old=>new" one-line source overlay
 }
 
 type Known struct {
@@ -124,6 +125,7 @@ func srcOverlays(c *CheckCfg) (map[string][]byte, []string, error) {
 }
 
 func cmdCheck(args []string) int {
+	defer runner.cleanup()
 	fs := flag.NewFlagSet("check", flag.ExitOnError)
 	tier := fs.String("tier", "", "quick|thorough (default: $VERIF_TIER or quick)")
 	only := fs.String("only", "", "run only this harness")
@@ -259,6 +261,37 @@ func cmdCheck(args []string) int {
 			default:
 				engineMismatch++
 				fmt.Printf("  ENGINE-MISMATCH: %s not reproduced natively (%s): %s\n    %s\n", v.Msg, verdict, summarize(v), lastLines(out, 6))
+			}
+		}
+	}
+	// native validation of sampled witnesses (translator / oracle validation)
+	if c.ValidateWitnesses > 0 && !*noReplay {
+		for _, r := range results {
+			if contains(c.Vacuity, r.Name) && !contains(names, r.Name) {
+				continue
+			}
+			n := 0
+			for _, w := range r.St.Samples {
+				if n >= c.ValidateWitnesses {
+					break
+				}
+				n++
+				rp := writeReplayTmp(prop, r.Name, w, tc.Params)
+				out, verdict := nativeReplay(h, c, allH, r.Name, rp, extra)
+				switch verdict {
+				case "PASS":
+					tracesValidated++
+				case "FAIL", "PANIC":
+					// the native harness (which also consults the real environment, e.g. real shells) disagrees
+					keep := writeReplay(prop, r.Name, w, tc.Params)
+					violations++
+					violLines = append(violLines, fmt.Sprintf("VIOLATION property=%s replay=%s", prop, keep))
+					fmt.Printf("  witness fails natively (%s): %s\n    %s\n", verdict, summarize(w), lastLines(out, 6))
+				default:
+					engineMismatch++
+					fmt.Printf("  ENGINE-MISMATCH: witness replay gave %s: %s\n    %s\n", verdict, summarize(w), lastLines(out, 6))
+				}
+				os.Remove(rp)
 			}
 		}
 	}
@@ -437,15 +470,36 @@ func writeReplay(prop, harness string, v vexec.Violation, params map[string]int)
 	return p
 }
 
-func nativeReplay(h *load.Harness, c *CheckCfg, harnesses []string, name, replayPath string, extra map[string][]byte) (string, string) {
+type nativeRunner struct {
+	tmp   string
+	bin   string
+	err   string
+	built bool
+}
+
+var runner nativeRunner
+
+func (r *nativeRunner) cleanup() {
+	if r.tmp != "" {
+		os.RemoveAll(r.tmp)
+	}
+}
+
+func (r *nativeRunner) build(h *load.Harness, c *CheckCfg, harnesses []string, extra map[string][]byte) {
+	if r.built {
+		return
+	}
+	r.built = true
 	tmp, err := os.MkdirTemp("", "vxreplay")
 	if err != nil {
-		return err.Error(), "ERROR"
+		r.err = err.Error()
+		return
 	}
-	defer os.RemoveAll(tmp)
+	r.tmp = tmp
 	ov, err := h.Overlay(filepath.Join(verifDir, "rt"), true, harnesses)
 	if err != nil {
-		return err.Error(), "ERROR"
+		r.err = err.Error()
+		return
 	}
 	for k, v := range extra {
 		ov[k] = v
@@ -461,14 +515,29 @@ func nativeReplay(h *load.Harness, c *CheckCfg, harnesses []string, name, replay
 	oj, _ := json.Marshal(map[string]interface{}{"Replace": repl})
 	ovPath := filepath.Join(tmp, "overlay.json")
 	os.WriteFile(ovPath, oj, 0o644)
-	cmd := exec.Command("go", "test", "-vet=off", "-count=1", "-run", "^TestVxReplay$", "-v", "-timeout", "120s", "-overlay", ovPath, "./"+c.Dir)
+	r.bin = filepath.Join(tmp, "replay.test")
+	cmd := exec.Command("go", "test", "-vet=off", "-c", "-o", r.bin, "-overlay", ovPath, "./"+c.Dir)
 	cmd.Dir = "/repo"
-	cmd.Env = append(os.Environ(), "GOFLAGS=-mod=mod", "GOPROXY=off", "GOSUMDB=off", "GOTOOLCHAIN=local", "VX_REPLAY="+replayPath, "VX_HARNESS="+name)
-	out, _ := cmd.CombinedOutput()
+	cmd.Env = append(os.Environ(), "GOFLAGS=-mod=mod", "GOPROXY=off", "GOSUMDB=off", "GOTOOLCHAIN=local")
+	out, err := cmd.CombinedOutput()
+	if err != nil {
+		r.err = "go test -c failed: " + err.Error() + "\n" + string(out)
+	}
+}
+
+func nativeReplay(h *load.Harness, c *CheckCfg, harnesses []string, name, replayPath string, extra map[string][]byte) (string, string) {
+	runner.build(h, c, harnesses, extra)
+	if runner.err != "" {
+		return runner.err, "ERROR"
+	}
+	ctxCmd := exec.Command("timeout", "120", runner.bin, "-test.run", "^TestVxReplay$", "-test.v", "-test.count=1")
+	ctxCmd.Dir = filepath.Join("/repo", c.Dir)
+	ctxCmd.Env = append(os.Environ(), "VX_REPLAY="+replayPath, "VX_HARNESS="+name)
+	out, _ := ctxCmd.CombinedOutput()
 	s := string(out)
 	for _, line := range strings.Split(s, "\n") {
-		if strings.HasPrefix(line, "VX-REPLAY: ") {
-			f := strings.Fields(line)
+		if i := strings.Index(line, "VX-REPLAY: "); i >= 0 {
+			f := strings.Fields(line[i:])
 			if len(f) >= 2 {
 				return s, f[1]
 			}
@@ -481,6 +550,7 @@ func nativeReplay(h *load.Harness, c *CheckCfg, harnesses []string, name, replay
 }
 
 func cmdReplay(args []string) int {
+	defer runner.cleanup()
 	if len(args) < 1 {
 		fmt.Fprintln(os.Stderr, "usage: vx replay <file>")
 		return 2
@@ -533,4 +603,16 @@ func cmdReplay(args []string) int {
 		return 1
 	}
 	return 0
+}
+
+func writeReplayTmp(prop, harness string, v vexec.Violation, params map[string]int) string {
+	rf := replayFile{Property: prop, Harness: harness, Kind: v.Kind, Msg: v.Msg, Inputs: v.Inputs, Params: params, Summary: summarize(v)}
+	data, _ := json.MarshalIndent(rf, "", " ")
+	f, err := os.CreateTemp("", "vxwitness*.json")
+	if err != nil {
+		return ""
+	}
+	f.Write(data)
+	f.Close()
+	return f.Name()
 }
